@@ -1220,6 +1220,7 @@ impl<'a, RO: Resolve, RN: Resolve> Cmp<'a, RO, RN> {
     fn stream_data(&mut self, path: &str, sa: &pdf::primitive::PdfStream, sb: &pdf::primitive::PdfStream) {
         let fa = Self::filters(&sa.info, self.ro);
         let fb = Self::filters(&sb.info, self.rn);
+        if std::env::var("C20_DEBUG").is_ok() { eprintln!("stream_data {} fa={:?} fb={:?}", path, fa, fb); }
         let da = sa.raw_data(self.ro);
         let db = sb.raw_data(self.rn);
         let (da, db) = match (da, db) {
@@ -1237,13 +1238,14 @@ impl<'a, RO: Resolve, RN: Resolve> Cmp<'a, RO, RN> {
         if chain_same {
             for ((na, pa), (nb, pb)) in fa.iter().zip(fb.iter()) {
                 if na != nb { chain_same = false; break; }
-                let keys: BTreeSet<String> = pa.iter().map(|(k, _)| k.to_string()).chain(pb.iter().map(|(k, _)| k.to_string())).collect();
+                let keys: BTreeSet<String> = pa.iter().map(|(k, _)| k.as_str().to_string()).chain(pb.iter().map(|(k, _)| k.as_str().to_string())).collect();
                 for k in keys {
                     let va = pa.get(&k).cloned().or_else(|| parm_default(na, &k)).unwrap_or(Primitive::Null);
                     let vb = pb.get(&k).cloned().or_else(|| parm_default(na, &k)).unwrap_or(Primitive::Null);
+                    // compared on the side: a difference is reported once, as a difference of the chain
                     let before = self.diffs.len();
                     self.equiv(&format!("{}/DecodeParms/{}", path, k), &va, &vb);
-                    if self.diffs.len() != before { chain_same = false; }
+                    if self.diffs.len() != before { chain_same = false; self.diffs.truncate(before); }
                 }
             }
         }
@@ -1566,7 +1568,9 @@ fn exec_import(case: &Value) -> Value {
     let visited = closure_check(&rn, &roots, &ro, &bwd, &mut diffs);
     stats.insert("new-objects-reachable".into(), visited as u64);
     for (s, w) in diffs { failures.push((s, w)); }
-    json!({"failures": failures.iter().map(|(s, w)| json!({"sig": s, "what": w})).collect::<Vec<_>>(), "stats": stats, "imported": done.len()})
+    let mut res = json!({"failures": failures.iter().map(|(s, w)| json!({"sig": s, "what": w})).collect::<Vec<_>>(), "stats": stats, "imported": done.len()});
+    if case.get("dump").is_some() { res["new_hex"] = json!(hex(&bytes)); }
+    res
 }
 
 // =====================================================================================================
@@ -1649,6 +1653,11 @@ fn run_import_cases(or: &mut Oracle, seed: u64, stream: &str, cases: Vec<ImportC
                     continue;
                 }
                 let imported = v["imported"].as_u64().unwrap_or(0);
+                match c.case.get("expect").and_then(|e| e.as_str()) {
+                    Some("success") if imported == 0 => or.fail("witness-import-failed", &format!("{}: importing was expected to succeed: {}", c.label, v["stats"]), replay.clone()),
+                    Some("no-success") if imported != 0 => or.fail("witness-import-succeeded", &format!("{}: importing a cyclic source was expected to end with an error", c.label), replay.clone()),
+                    _ => {}
+                }
                 or.case(&c.label, c.nontrivial && imported > 0, || json!({"label": c.label, "imported": imported, "stats": v["stats"]}));
                 or.count(if imported > 0 { "import=compared" } else { "import=did-not-succeed" });
                 if let Some(st) = v["stats"].as_object() {
@@ -1686,6 +1695,225 @@ fn import_corpus(seed: u64, thorough: bool) -> Oracle {
     or
 }
 
+// ---------------------------------------------------------------------------------------------------
+// generated documents for the oracle
+
+/// realistic resource objects, numbered from 200: fonts (with descriptor, /ToUnicode stream, /Widths),
+/// images (raw / Flate / predictor / filter chains), forms with their own resources
+struct Rich {
+    objs: Vec<(u64, Vec<u8>, bool)>,
+    fonts: Vec<u64>,
+    images: Vec<u64>,
+    forms: Vec<u64>,
+    ocgs: Vec<u64>,
+}
+
+fn png_up_rows(rows: &[Vec<u8>]) -> Vec<u8> {
+    // PNG predictor "Up" (type 2) on every row
+    let mut out = vec![];
+    let mut prev = vec![0u8; rows[0].len()];
+    for r in rows {
+        out.push(2);
+        for (i, b) in r.iter().enumerate() { out.push(b.wrapping_sub(prev[i])); }
+        prev = r.clone();
+    }
+    out
+}
+
+fn rich_objects(rng: &mut Rng, g: &Graph) -> Rich {
+    let mut r = Rich { objs: vec![], fonts: vec![], images: vec![], forms: vec![], ocgs: vec![] };
+    let gids: Vec<u64> = g.keys().cloned().collect();
+    let mut next = 200u64;
+    let mut id = || { next += 1; next };
+    // fonts
+    for i in 0..1 + rng.below(3) {
+        let f = id(); let d = id(); let tu = id(); let w = id();
+        let base = ["Helvetica", "Times-Roman", "Courier", "ABCDEF+Custom"][i as usize % 4];
+        r.objs.push((f, format!("<< /Type /Font /Subtype /Type1 /BaseFont /{} /Encoding /WinAnsiEncoding /FirstChar 32 /LastChar 34 /Widths {} 0 R /FontDescriptor {} 0 R /ToUnicode {} 0 R >>", base, w, d, tu).into_bytes(), false));
+        r.objs.push((d, format!("<< /Type /FontDescriptor /FontName /{} /Flags 32 /FontBBox [-10 -20 1000 900] /ItalicAngle 0 /Ascent 700 /Descent -200 /CapHeight 650 /StemV 80 >>", base).into_bytes(), false));
+        let cmap = format!("/CIDInit /ProcSet findresource begin\n1 beginbfchar\n<20> <00{:02X}>\nendbfchar\nend", 0x41 + i);
+        r.objs.push((tu, if rng.chance(1, 2) { stream_body("/Filter /FlateDecode", &zlib(cmap.as_bytes())) } else { stream_body("", cmap.as_bytes()) }, true));
+        r.objs.push((w, b"[250 333.5 408]".to_vec(), false));
+        r.fonts.push(f);
+    }
+    // images
+    for _ in 0..1 + rng.below(3) {
+        let im = id();
+        let rows: Vec<Vec<u8>> = (0..2).map(|_| rng.bytes(6)).collect();
+        let raw: Vec<u8> = rows.concat();
+        let head = "/Type /XObject /Subtype /Image /Width 2 /Height 2 /ColorSpace /DeviceRGB /BitsPerComponent 8";
+        let extra = if rng.chance(1, 3) { " /Interpolate true" } else { "" };
+        let body = match rng.below(7) {
+            0 => stream_body(&format!("{}{}", head, extra), &raw),
+            1 => stream_body(&format!("{}{} /Filter /FlateDecode", head, extra), &zlib(&raw)),
+            2 => stream_body(&format!("{}{} /Filter /FlateDecode /DecodeParms << /Predictor 12 /Colors 3 /BitsPerComponent 8 /Columns 2 >>", head, extra), &zlib(&png_up_rows(&rows))),
+            3 => stream_body(&format!("{}{} /Filter [/ASCIIHexDecode /FlateDecode]", head, extra), &ascii_hex(&zlib(&raw))),
+            5 => stream_body(&format!("{}{} /Filter [/FlateDecode /FlateDecode]", head, extra), &zlib(&zlib(&raw))),
+            4 => stream_body(&format!("{}{} /Filter [/ASCIIHexDecode /FlateDecode] /DecodeParms [null << /Predictor 12 /Colors 3 /BitsPerComponent 8 /Columns 2 >>]", head, extra), &ascii_hex(&zlib(&png_up_rows(&rows)))),
+            _ => stream_body(&format!("{}{} /Filter /ASCIIHexDecode", head, extra), &ascii_hex(&raw)),
+        };
+        r.objs.push((im, body, true));
+        r.images.push(im);
+    }
+    // optional-content groups (targets of /Properties)
+    for i in 0..rng.below(3) {
+        let o = id();
+        r.objs.push((o, format!("<< /Type /OCG /Name (layer {}) >>", i).into_bytes(), false));
+        r.ocgs.push(o);
+    }
+    // forms: own resources (direct or indirect), may use fonts, images and earlier forms, extra keys with graph references
+    for _ in 0..rng.below(4) {
+        let f = id();
+        let mut res = String::from("<<");
+        let mut content = String::from("q ");
+        if !r.fonts.is_empty() && rng.chance(1, 2) { res.push_str(&format!(" /Font << /FA {} 0 R >>", rng.pick(&r.fonts))); content.push_str("BT /FA 9 Tf (x) Tj ET "); }
+        let mut xo = vec![];
+        if !r.images.is_empty() && rng.chance(1, 2) { xo.push(format!("/IA {} 0 R", rng.pick(&r.images))); content.push_str("/IA Do "); }
+        if !r.forms.is_empty() && rng.chance(1, 2) { xo.push(format!("/FB {} 0 R", rng.pick(&r.forms))); content.push_str("/FB Do "); }
+        if !xo.is_empty() { res.push_str(&format!(" /XObject << {} >>", xo.join(" "))); }
+        res.push_str(" >>");
+        content.push_str("Q");
+        let mut d = String::from("/Type /XObject /Subtype /Form /BBox [0 0 50 50]");
+        if rng.chance(1, 2) { d.push_str(" /Matrix [1 0 0 1 2.5 3]"); }
+        if rng.chance(1, 2) { d.push_str(" /Group << /S /Transparency /CS /DeviceRGB >>"); }
+        if rng.chance(2, 3) {
+            if rng.chance(1, 2) { let rid = id(); r.objs.push((rid, res.clone().into_bytes(), false)); d.push_str(&format!(" /Resources {} 0 R", rid)); }
+            else { d.push_str(&format!(" /Resources {}", res)); }
+        }
+        if !gids.is_empty() && rng.chance(1, 2) { d.push_str(&format!(" /PieceInfo << /App << /Private {} 0 R >> >>", rng.pick(&gids))); }
+        let body = if rng.chance(1, 2) { stream_body(&format!("{} /Filter /FlateDecode", d), &zlib(content.as_bytes())) } else { stream_body(&d, content.as_bytes()) };
+        r.objs.push((f, body, true));
+        r.forms.push(f);
+    }
+    r
+}
+
+/// pages over the rich objects and the graph
+fn rich_pages(rng: &mut Rng, g: &Graph, rich: &Rich, kinds_all: bool) -> Vec<PSpec> {
+    let gids: Vec<u64> = g.keys().cloned().collect();
+    let np = 1 + rng.below(4);
+    // a pool of resource entries shared between the pages
+    let mut pool: Vec<ResSpec> = vec![];
+    for (i, f) in rich.fonts.iter().enumerate() { pool.push(ResSpec { kind: 1, name: 1 + i as u64, payload: 0, kids: vec![*f] }); }
+    for (i, x) in rich.images.iter().chain(rich.forms.iter()).enumerate() { pool.push(ResSpec { kind: 2, name: 1 + i as u64, payload: 0, kids: vec![*x] }); }
+    for i in 0..2u64 { pool.push(ResSpec { kind: 0, name: 1 + i, payload: 7000 + i, kids: (0..rng.below(3)).filter_map(|_| if gids.is_empty() { None } else { Some(*rng.pick(&gids)) }).collect() }); }
+    if kinds_all {
+        pool.push(ResSpec { kind: 3, name: 1, payload: 0, kids: vec![] });
+        for (i, o) in rich.ocgs.iter().enumerate() { pool.push(ResSpec { kind: 6, name: 1 + i as u64, payload: 0, kids: vec![*o] }); }
+    }
+    (0..np).map(|_| {
+        let mut res: Vec<ResSpec> = pool.iter().filter(|_| rng.chance(2, 3)).cloned().collect();
+        rng.shuffle(&mut res);
+        let mut ops = vec![];
+        for _ in 0..rng.below(10) {
+            if !res.is_empty() && rng.chance(2, 3) { let r = rng.pick(&res); ops.push(OpSpec::Use(r.kind, r.name)); }
+            else { ops.push(OpSpec::Other(rng.below(8))); }
+        }
+        let w = 200 + rng.range(0, 400);
+        let h = 200 + rng.range(0, 600);
+        PSpec {
+            media: [0, 0, w, h],
+            crop: if rng.chance(1, 3) { Some([10, 10, w - 10, h - 10]) } else { None },
+            trim: if rng.chance(1, 4) { Some([20, 20, w - 20, h - 20]) } else { None },
+            rotate: *rng.pick(&[0, 0, 90, 180, 270]),
+            res_mode: *rng.pick(&[ResMode::Direct, ResMode::Indirect, ResMode::Indirect]),
+            res,
+            ops,
+            rest: (0..rng.below(3)).filter_map(|_| if gids.is_empty() { None } else { Some(*rng.pick(&gids)) }).collect(),
+            flate: rng.chance(1, 2),
+            split: rng.chance(1, 4),
+        }
+    }).collect()
+}
+
+fn shift_graph(g0: Graph) -> Graph {
+    g0.into_iter().map(|(id, mut nd)| {
+        let sh = |x: u64| if x >= 900 { x } else { x + 90 };
+        nd.k = nd.k.iter().map(|x| sh(*x)).collect(); nd.a = nd.a.map(sh); nd.b = nd.b.map(sh);
+        (id + 90, nd)
+    }).collect()
+}
+
+/// deterministic witnesses: the open findings (D40, one per category) and the repaired defects (D41, D46)
+fn witnesses() -> Vec<ImportCase> {
+    let mut out = vec![];
+    let base = |res: Vec<ResSpec>, ops: Vec<OpSpec>, rest: Vec<u64>| PSpec { media: [0, 0, 200, 300], crop: None, trim: None, rotate: 90, res_mode: ResMode::Direct, res, ops, rest, flate: false, split: false };
+    let mut g = Graph::new();
+    g.insert(100, GNode { ty: NT::Dict, k: vec![], a: None, b: None });
+    // D40: one page per category that `deep_clone_op` does not look at
+    for (kind, label) in [(3usize, "ColorSpace"), (4, "Pattern"), (5, "Shading"), (6, "Properties")] {
+        let p = base(vec![ResSpec { kind, name: 1, payload: 0, kids: vec![100] }, ResSpec { kind: 0, name: 1, payload: 5, kids: vec![] }], vec![OpSpec::Other(0), OpSpec::Use(0, 1), OpSpec::Use(kind, 1), OpSpec::Other(1)], vec![]);
+        let doc = page_doc(&[p], &g, &[], PLAIN);
+        out.push(ImportCase { label: format!("witness D40 {}", label), case: json!({"kind": "import", "doc": hex(&doc), "password": "-", "pages": [0]}), child: true, nontrivial: true });
+    }
+    // D41 (fixed): a page-level entry that leads into a reference cycle; importing must end (with an error)
+    let mut gc = Graph::new();
+    gc.insert(100, GNode { ty: NT::Dict, k: vec![101], a: None, b: None });
+    gc.insert(101, GNode { ty: NT::Arr, k: vec![100], a: None, b: None });
+    let doc = page_doc(&[base(vec![], vec![OpSpec::Other(0), OpSpec::Other(1)], vec![100])], &gc, &[], PLAIN);
+    out.push(ImportCase { label: "regression D41 cycle below a page entry".into(), case: json!({"kind": "import", "doc": hex(&doc), "password": "-", "pages": [0], "expect": "no-success"}), child: true, nontrivial: true });
+    let mut gs = Graph::new();
+    gs.insert(100, GNode { ty: NT::Stm, k: vec![100], a: None, b: None });
+    let doc = page_doc(&[base(vec![ResSpec { kind: 1, name: 1, payload: 0, kids: vec![100] }], vec![OpSpec::Use(1, 1)], vec![])], &gs, &[], PLAIN);
+    out.push(ImportCase { label: "regression D41 self-referencing font object".into(), case: json!({"kind": "import", "doc": hex(&doc), "password": "-", "pages": [0], "expect": "no-success"}), child: true, nontrivial: true });
+    // D46 (fixed): /Resources object 101 reached as a plain reference (page entry /K) by the first page, then as
+    // the /Resources (RcRef) of a form used by the second page
+    let mut gr = Graph::new();
+    gr.insert(101, GNode { ty: NT::Res, k: vec![], a: None, b: Some(102) });
+    gr.insert(102, GNode { ty: NT::Dict, k: vec![], a: None, b: None });
+    gr.insert(103, GNode { ty: NT::Form, k: vec![], a: Some(101), b: None });
+    let p1 = base(vec![], vec![OpSpec::Other(0), OpSpec::Other(1)], vec![101]);
+    let p2 = base(vec![ResSpec { kind: 2, name: 1, payload: 0, kids: vec![103] }], vec![OpSpec::Use(2, 1)], vec![]);
+    let doc = page_doc(&[p1, p2], &gr, &[], PLAIN);
+    // D47 (fixed): images whose filter chain has parameters beyond the first filter / two parameterised filters
+    let head = "/Type /XObject /Subtype /Image /Width 2 /Height 2 /ColorSpace /DeviceRGB /BitsPerComponent 8";
+    let rows = vec![vec![1u8, 2, 3, 4, 5, 6], vec![7u8, 8, 9, 10, 11, 12]];
+    let img1 = stream_body(&format!("{} /Filter [/ASCIIHexDecode /FlateDecode] /DecodeParms [null << /Predictor 12 /Colors 3 /BitsPerComponent 8 /Columns 2 >>]", head), &ascii_hex(&zlib(&png_up_rows(&rows))));
+    let img2 = stream_body(&format!("{} /Filter [/FlateDecode /FlateDecode]", head), &zlib(&zlib(&rows.concat())));
+    for (label, img) in [("regression D47 predictor parameters of the second filter", img1), ("regression D47 two filters with parameters", img2)] {
+        let p = base(vec![ResSpec { kind: 2, name: 1, payload: 0, kids: vec![200] }], vec![OpSpec::Other(0), OpSpec::Use(2, 1), OpSpec::Other(1)], vec![]);
+        let doc = page_doc(&[p], &Graph::new(), &[(200, img, true)], PLAIN);
+        out.push(ImportCase { label: label.into(), case: json!({"kind": "import", "doc": hex(&doc), "password": "-", "pages": [0], "expect": "success"}), child: true, nontrivial: true });
+    }
+    out.push(ImportCase { label: "regression D46 object copied as a plain reference, then as an RcRef".into(), case: json!({"kind": "import", "doc": hex(&doc), "password": "-", "pages": [0, 1], "expect": "success"}), child: true, nontrivial: true });
+    out
+}
+
+fn import_generated(seed: u64, thorough: bool) -> Oracle {
+    let mut or = Oracle::new("c20.import.generated");
+    let mut cases = witnesses();
+    let n = if thorough { 3000 } else { 160 };
+    for case in 0..n {
+        let mut rng = Rng::derive(seed, "c20.import.generated", case);
+        // one document in eight has a planted cycle or a dangling reference somewhere in its graph
+        let cyc = rng.chance(1, 8);
+        let miss = rng.chance(1, 10);
+        let g = shift_graph(random_graph(&mut rng, cyc, miss));
+        let rich = rich_objects(&mut rng, &g);
+        let all_kinds = rng.chance(1, 3);
+        let mut pages = rich_pages(&mut rng, &g, &rich, all_kinds);
+        if rng.chance(1, 5) { let i = rng.usize(pages.len()); pages[i].res_mode = ResMode::Inherited; }
+        let xs = rng.chance(1, 2);
+        let layout = Layout { xref_stream: xs, objstm: xs && rng.chance(2, 3), flate: rng.chance(1, 2) };
+        let doc = page_doc(&pages, &g, &rich.objs, layout);
+        let np = pages.len() as u32;
+        let mut order: Vec<u32> = (0..np).collect();
+        match rng.below(4) { 0 => {} 1 => order.reverse(), 2 => rng.shuffle(&mut order), _ => { rng.shuffle(&mut order); order.truncate(1 + rng.usize(np as usize)); } }
+        if rng.chance(1, 5) { let d = order[0]; order.push(d); }
+        or.count(if layout.objstm { "layout=object-streams" } else if layout.xref_stream { "layout=xref-stream" } else { "layout=classic" });
+        or.count(if has_cycle(&g) { "graph=cyclic" } else { "graph=acyclic" });
+        or.count(if all_kinds { "resources=all-categories" } else { "resources=handled-categories" });
+        cases.push(ImportCase {
+            label: format!("generated #{} pages {:?}", case, order),
+            case: json!({"kind": "import", "doc": hex(&doc), "password": "-", "pages": order}),
+            child: has_cycle(&g) || thorough == false && case % 16 == 0,
+            nontrivial: true,
+        });
+    }
+    run_import_cases(&mut or, seed, "c20.import.generated", cases);
+    or
+}
+
 // =====================================================================================================
 
 pub fn run(driver: &Driver, seed: u64, thorough: bool, replay: Option<&serde_json::Value>) -> Report {
@@ -1698,6 +1926,7 @@ pub fn run(driver: &Driver, seed: u64, thorough: bool, replay: Option<&serde_jso
     rep.streams.push(clone_exhaustive(driver, if thorough { 3 } else { 2 }));
     rep.streams.push(clone_random(driver, seed, if thorough { 20_000 } else { 1500 }));
     rep.streams.push(page_stream(driver, seed, if thorough { 10_000 } else { 800 }));
+    rep.oracles.push(import_generated(seed, thorough));
     rep.oracles.push(import_corpus(seed, thorough));
     rep
 }
